@@ -1,0 +1,30 @@
+//go:build verif
+
+package webp
+
+import "bytes"
+
+// Verification hooks for the RIFF/WebP container writers of encode.go
+// (properties C02 and C15). Compiled only with the build tag "verif"; they add
+// no behaviour of their own.
+
+// VerifWriteRIFFSimple is writeRIFFSimple into a buffer.
+func VerifWriteRIFFSimple(fourcc uint32, bitstream []byte) ([]byte, error) {
+	var buf bytes.Buffer
+	err := writeRIFFSimple(&buf, fourcc, bitstream)
+	return buf.Bytes(), err
+}
+
+// VerifWriteRIFFExtended is writeRIFFExtended into a buffer.
+func VerifWriteRIFFExtended(fourcc uint32, bitstream, alpha []byte, width, height int, icc, exif, xmp []byte) ([]byte, error) {
+	var buf bytes.Buffer
+	err := writeRIFFExtended(&buf, fourcc, bitstream, alpha, width, height, icc, exif, xmp)
+	return buf.Bytes(), err
+}
+
+// VerifWriteRIFF is writeRIFF into a buffer.
+func VerifWriteRIFF(fourcc uint32, bitstream, alpha []byte, width, height int, opts *EncoderOptions) ([]byte, error) {
+	var buf bytes.Buffer
+	err := writeRIFF(&buf, fourcc, bitstream, alpha, width, height, opts)
+	return buf.Bytes(), err
+}
